@@ -400,7 +400,7 @@ static unsigned pf_write_f(
 {
     const double f = va_arg(args->list, double);
     const unsigned written_by_conversion = pf_strfromd(
-        out->data + out->length, out->capacity, fmt, f);
+        out->data + out->length, pf_capacity_left(*out), fmt, f);
     out->length += written_by_conversion;
 
 
